@@ -28,7 +28,7 @@ def gen(rng, tier):
         cases.append(c)
     # builtins whose other arguments (bag, extra arguments, terms of = and \=) share variables with a goal whose answers
     # depend on the binding state of those variables (progs.gen_meta_program)
-    for _ in range(110 if tier == 'quick' else 2500):
+    for _ in range(150 if tier == 'quick' else 2500):
         p = progs.gen_meta_program(rng)
         cases.append({'clauses': p['clauses'], 'queries': p['queries'], 'origin': 'meta-shared', 'three_views': True})
     return cases
